@@ -31,4 +31,5 @@ registry! {
     c08::C08,
     c09::C09,
     c10::C10,
+    c11::C11,
 }
